@@ -36,6 +36,12 @@ pub struct RealCfg {
     /// yields of the consumer per handled record / set (a slow consumer lets the reader run ahead as far as it can)
     #[serde(default)]
     pub consumer_yields: u8,
+    /// that many additional tiny records (one base each) follow the others
+    #[serde(default)]
+    pub many: u16,
+    /// blank lines after the last record
+    #[serde(default)]
+    pub trailing_blank: u8,
 }
 
 /// `DoubleUntil(t)` with a guard: a policy answer that does not grow would make the reader thread spin forever
@@ -97,6 +103,17 @@ pub fn document(c: &RealCfg) -> Vec<u8> {
                 v.push(b'\n');
             }
         }
+    }
+    for j in 0..c.many as usize {
+        let i = c.n_records as usize + j;
+        if c.fastq {
+            v.extend_from_slice(format!("@r{}\nA\n+\nI\n", i).as_bytes());
+        } else {
+            v.extend_from_slice(format!(">r{}\nA\n", i).as_bytes());
+        }
+    }
+    for _ in 0..c.trailing_blank {
+        v.push(b'\n');
     }
     v
 }
